@@ -1,5 +1,6 @@
 from __future__ import unicode_literals
 
+import struct
 import zlib
 
 from six import PY2
@@ -9,6 +10,9 @@ from .errors import CompressionParameterError
 
 class Deflate(object):
     """Compress with the Deflate algorithm."""
+
+    # Header of a stored (uncompressed), non-final deflate block
+    _pack_stored = struct.Struct(b'<BHH').pack
 
     def __init__(
         self, decompress_wbits, compress_wbits, reset_decompress, reset_compress
@@ -39,6 +43,37 @@ class Deflate(object):
     def reset_decompressor(self):
         """Reset the decompressor for the next frame."""
         self._decompressobj = zlib.decompressobj(-self.decompress_wbits)
+        # The most recent output (at least a window's worth of it)
+        self._window = bytearray()
+
+    def _inflate(self, data):
+        """Decompress data, return decompressed data.
+
+        A deflate block with BFINAL set (permitted by RFC 7692 7.2.3.4)
+        ends the zlib stream, and zlib leaves whatever follows it in
+        `unused_data`. The LZ77 window has to survive that, so we carry
+        on with a new decompressor, primed with the most recent output
+        (fed to it as a stored block).
+
+        """
+        window_size = 1 << self.decompress_wbits
+        payload = self._decompressobj.decompress(data)
+        self._window += payload
+        while self._decompressobj.unused_data:
+            data = self._decompressobj.unused_data
+            window = bytes(self._window[-window_size:])
+            self._decompressobj = zlib.decompressobj(-self.decompress_wbits)
+            if window:
+                size = len(window)
+                self._decompressobj.decompress(
+                    self._pack_stored(0, size, size ^ 0xffff) + window
+                )
+            more = self._decompressobj.decompress(data)
+            self._window += more
+            payload += more
+        if len(self._window) > 2 * window_size:
+            del self._window[:-window_size]
+        return payload
 
     @classmethod
     def from_options(cls, options):
@@ -70,16 +105,16 @@ class Deflate(object):
         """Decompress payload, returned decompressed data."""
         if PY2:
             data = [
-                self._decompressobj.decompress(bytes(frame.payload))
+                self._inflate(bytes(frame.payload))
                 for frame in frames
             ]
         else:
             data = [
-                self._decompressobj.decompress(frame.payload)
+                self._inflate(frame.payload)
                 for frame in frames
             ]
 
-        data.append(self._decompressobj.decompress(b"\x00\x00\xff\xff"))
+        data.append(self._inflate(b"\x00\x00\xff\xff"))
         payload = b''.join(data)
         if self.reset_decompress:
             self.reset_decompressor()
